@@ -4,6 +4,7 @@ enum { P_segment = 0, P_angle, P_crossing, P_clusterCrossing, P_fixedShared, P_p
 enum { O_nudgeAttached = 0, O_hyperMove, O_penaliseSharedEnds, O_nudgeTouching, O_unifying, O_hyperAddDel, O_nudgeCommonEnd };
 
 void addPinOps(RouterGenCfg &g, bool zeroInside);
+void addJunctionOps(RouterGenCfg &g, double pEnd);
 static void tunables(Rng &r, RouterGenCfg &g) { g.selective = r.chance(0.8); g.invis = r.chance(0.8); g.lees = r.chance(0.7); }
 static void addNoise(Rng &r, Json &ss, const std::string &tier) {
     if (r.chance(0.35)) ss.push(r.chance(0.5) ? genOverlapSession(r, "quick") : genSolverSession(r, "quick"));
@@ -30,6 +31,7 @@ static Json genC03(const std::string &prop, uint64_t seed, const std::string &ti
         else if (member == 3 || member == 4) { g.params[P_crossing] = r.pick(std::vector<double>{100, 200}); g.cancelFaults = true; if (r.chance(0.5)) g.params[P_fixedShared] = 110; }
         else if (member == 5) { g.params[P_angle] = r.pick(std::vector<double>{0, 20}); g.dirRestrict = true; }
         else if (member == 6) addPinOps(g, false);
+        else if (member == 8) { g.ortho = true; g.polygons = false; addJunctionOps(g, 0.5); g.pinsGeometry = true; g.minShapes = 3; }   // free junctions: routes as adjusted by hyperedge improvement (on by default) are judged too
         else if (member == 7) { g.allowCover = true; g.polygons = false; }      // shapes dragged over free end points and on      // end points on pins (insideOffset >= 1): the route may only pass through the shapes it is attached to
         if (g.ortho) { g.params[P_nudgeDist] = r.pick(std::vector<double>{0, 4, 10}); g.options[O_nudgeAttached] = r.chance(0.3); g.options[O_unifying] = r.chance(0.7); }
         g.outputOps = r.chance(0.2);
